@@ -32,7 +32,15 @@ def lane_hashseed(base, lane, salt=0):
     return int(hashlib.sha256(('hs/%d/%d/%d' % (base, lane, salt)).encode()).hexdigest()[:7], 16) % 4294967295
 
 
+GDB_WORLD = ('C09', 'C10', 'C15')
+
+
 def load_prop(pid):
+    if pid.upper() in GDB_WORLD:
+        # the fake `gdb` module must be importable before the tool is (core.util.check_gdb())
+        fake = os.path.join(VERIF, 'sim', 'fakegdb')
+        if fake not in sys.path:
+            sys.path.insert(0, fake)
     return importlib.import_module('sim.props.' + pid.lower())
 
 
